@@ -144,7 +144,8 @@ func StakingPayerFeeHandling(ctx *Context, feePayer keys.Address, signedTx Signe
 	}
 
 	if !val.Address.Equal(feePayer) {
-		return false, Response{Log: errors.Wrap(err, "wrong fee payer").Error()}
+		// err is nil here: errors.Wrap(nil, ...) is nil and calling Error() on it panics
+		return false, Response{Log: "wrong fee payer"}
 	}
 
 	charge := signedTx.Fee.Price.ToCoin(ctx.Currencies).MultiplyInt64(int64(used))
